@@ -46,10 +46,26 @@ def addresses(seed):
     return out
 
 
+def window_addresses(seed, tier):
+    """EVERY wildcard mask over a window of w bits (bits 6..), with a contiguous tail of 0 or 2 bits,
+    on two bases that differ inside the window: the complete containment lattice of a small cube
+    space (the answers depend on bit algebra only, so the window position is immaterial)."""
+    w = 5 if tier == "quick" else 7
+    point = G.window(seed) + 0x55
+    out = []
+    for m in range(1 << w):
+        for tail in (0, 3):
+            for bi, base in enumerate((point, point ^ (1 << 7))):
+                out.append(G.mk(f"w{m:02x}t{tail}b{bi}", base, (m << 6) | tail))
+    return out
+
+
 def describe(tier, seed):
     adrs = addresses(seed)
     return dict(addresses=len(adrs), non_contiguous=sum(a.is_nc for a in adrs),
-                window=S.int2ip(G.window(seed)), group_sizes=[1, 2] if tier == "quick" else [1, 2, 3])
+                window=S.int2ip(G.window(seed)),
+                mask_window=dict(bits=5 if tier == "quick" else 7, addresses=len(window_addresses(seed, tier))),
+                group_sizes=[1, 2] if tier == "quick" else [1, 2, 3])
 
 
 def units(tier, seed):
@@ -59,6 +75,12 @@ def units(tier, seed):
         for i in range(n):
             out.append(dict(kind="pairs", platform=plat, a=i))
         out.append(dict(kind="spellings", platform=plat))
+        nw = len(window_addresses(seed, tier))
+        for i in range(0, nw, 8):
+            out.append(dict(kind="window", platform=plat, lo=i, hi=min(i + 8, nw)))
+        if tier == "thorough":
+            for i in range(n):
+                out.append(dict(kind="spellings_all", platform=plat, a=i))
         for k in ([1, 2] if tier == "quick" else [1, 2, 3]):
             out.append(dict(kind="groups", platform=plat, k=k))
         out.append(dict(kind="items", platform=plat))
@@ -81,6 +103,19 @@ def run_unit(unit, ctx):
         adrs = addresses(ctx.seed)
         sub = [adrs[i] for i in (0, 8, 24, 30, 32, 33, 36, 43, 44, 45, len(adrs) - 3, len(adrs) - 2)]
         for a, b in product(sub, repeat=2):
+            for (ta, _), (tb, _) in product(a.spellings(unit["platform"]), b.spellings(unit["platform"])):
+                _pair(unit["platform"], a, b, ta, tb, ctx)
+    elif unit["kind"] == "window":
+        wa = window_addresses(ctx.seed, ctx.tier)
+        plat = unit["platform"]
+        for a in wa[unit["lo"]:unit["hi"]]:
+            for b in wa:
+                _pair(plat, a, b, a.spellings(plat)[0][0], b.spellings(plat)[0][0], ctx)
+        ctx.sample("window", dict(platform=plat, a=a.spellings(plat)[0][0], n=len(wa)))
+    elif unit["kind"] == "spellings_all":
+        adrs = addresses(ctx.seed)
+        a = adrs[unit["a"]]
+        for b in adrs:
             for (ta, _), (tb, _) in product(a.spellings(unit["platform"]), b.spellings(unit["platform"])):
                 _pair(unit["platform"], a, b, ta, tb, ctx)
     elif unit["kind"] == "groups":
